@@ -51,8 +51,20 @@ CHECKS = {
     "C18": {"level": "exploration", "technique": "seeded multi-party simulation over one scratch disk: trainer-written keyspace/probability files against the guesser's generator and RefOmen",
             "text": "For every level the trainer lists (within the enumeration cap) the saved keyspace must equal the number of distinct strings the real generator emits and the reference count, and the saved level probability must equal (passwords at level / N) / keyspace.",
             "note": _TB + "; no schedule or fault enters this property (fit W); levels above 8000 strings are skipped"},
+    "C05": {"level": "exploration", "technique": "seeded simulation of trainer runs and of detector-training histories (stateful multi-word detector) with an invariant monitor (RefSeg) on every parse and a tally refinement check on the counters",
+            "text": "Every parse of simulated training runs, and of generated histories of MultiWordDetector.train/pretrain/parse calls in varying order, is checked against label-soundness predicates and a plain Counter fed with the same history; the parser's counters must equal the tallies of the captured segmentations.",
+            "note": _TB + "; history = detector training order only; no fault enters (fit W); one known finding keyed to passwords containing U+0130"},
+    "C06": {"level": "exploration", "technique": "seeded simulation of training runs on a scratch disk; saved bytes against a reference tally; determinism under changed environment (stale ruleset in the target directory, other uuid, fresh interpreters under other hash seeds)",
+            "text": "After every simulated training the bytes on disk are compared with the relative-frequency model recomputed from the captured segmentations (incl. the Markov pseudo-count for every coverage); the same list is then trained into a directory that still holds a different older ruleset and, in fresh interpreters under other PYTHONHASHSEED values, must give byte-identical trees except the uuid.",
+            "note": _TB},
+    "C07": {"level": "exploration", "technique": "seeded multi-party simulation over one scratch disk: one writer (trainer) and five readers, hostile code points and all supported encodings, byte-level reference reader",
+            "text": "Rulesets trained from lists containing every white-space / line-break-like code point in every supported encoding are read back by the guesser loader, scorer loader, guesser OMEN loader, OmenScorer and keyspace loader; each must return exactly what a byte-level LF/TAB reader returns, and config.ini must list exactly the files present.",
+            "note": _TB + "; no schedule or fault enters (fit M: multi-party via storage)"},
+    "C19": {"level": "exploration", "technique": "seeded simulation with fault injection on the training file (junk lines, undecodable bytes, unterminated last line, random byte flips) across equivalent encodings; pass-by-pass comparison and ruleset byte comparison",
+            "text": "One logical list is rendered as plain / $HEX[] / count-prefixed / CRLF files with injected junk; all three passes of every variant must yield exactly the list and the rulesets must be byte-identical; random byte flips must not abort training, desynchronise the passes or leak forbidden characters into the ruleset.",
+            "note": _TB + "; fragments produced by codec line splitting are counted, not judged"},
 }
 
 _PENDING = "check not built yet in this round (planned: DESIGN.md §6); not claimed until its evidence exists"
 NOT_APPLICABLE = {p: _PENDING for p in
-                  ["C03", "C05", "C06", "C07", "C13", "C16", "C17", "C19", "C20"]}
+                  ["C03", "C13", "C16", "C17", "C20"]}
